@@ -40,6 +40,7 @@ def run(tier, seed):
     stats_n = 0
     fresh_n = hist_n = 0
     invalid_ok = 0
+    neg_probes = 0
     samples = []
     maxdev32 = 0.0
     for e in events:
@@ -50,6 +51,8 @@ def run(tier, seed):
             ver.add({'wt': e.get('wt'), 'kind': e['kind'], 'fresh': e.get('tree', '').startswith('fresh')}, e)
         elif ev == 'c10_invalid':
             invalid_ok += 1 if e['ok'] else 0
+        elif ev == 'c10_negative':
+            neg_probes += e['probes']
         elif ev == 'c10_f32':
             n_f32 += 1
             fresh_n += e['fresh']
@@ -153,12 +156,12 @@ def run(tier, seed):
         'samples': samples,
         'f32_trees_all_2p23_targets': n_f32, 'f64_trees_bisected': n_f64, 'integer_trees': n_int, 'fresh_trees': int(fresh_n), 'trees_after_histories': int(hist_n),
         'integer_draws': draws, 'adversarial_stream_executions': adv, 'f32_max_deviation_over_tolerance': maxdev32,
-        'statistics_tested_stage1': stats_n, 'stage1_flags': flags, 'stage2_confirmed': confirmed, 'invalid_trees_returning_InsufficientNonZero': invalid_ok,
+        'statistics_tested_stage1': stats_n, 'stage1_flags': flags, 'stage2_confirmed': confirmed, 'invalid_trees_returning_InsufficientNonZero': invalid_ok, 'negative_weight_probes': neg_probes,
         'exhaustive': False, 'known_findings_hit': {k: v['n'] for k, v in ver.known_hits.items()},
     }
     V.write_evidence('C10', tier, seed, cov, time.time() - t0, len(ver.violations),
                      assumptions=['f32/f64 laws are compared with the tree\'s own get(i)/total (rounding of float updates is C09\'s weak claim)',
                                   'integer uniform range sampling of rand is unbiased to 2^-60', 'stage 2 uses ChaCha12 (StdRng)'])
     if n_f32 == 0 or n_f64 == 0 or n_int < 20:
-        return 2
+        return 1 if rc == 1 else 2  # a violation outranks a missed coverage floor
     return rc
